@@ -2,8 +2,8 @@ import GS.Generated.StatusCodes
 /-
 Responder request lifecycle (properties C05, C23, C25).  Core Lean only.
 
-Actor model of the responder side of go-graphsync (at /repo HEAD, including the fixes 369d047 and
-50602fc made while building this cluster):
+Actor model of the responder side of go-graphsync (at /repo HEAD, including the fixes 369d047,
+50602fc and its follow-up made while building this cluster):
 
   responsemanager/server.go     run / processRequests / newRequest / processUpdate / abortRequest /
                                 startTask / finishTask / getUpdates / pause / unpause / update /
@@ -590,9 +590,10 @@ def finishTask (s : State) (w : Nat) (err : Option WErr) : State :=
     match lookup s1 wk.id with
     | none => s1
     | some r =>
-      if err == some .paused then setState s1 r.id .paused
+      if r.aux.netErr then terminate s1 r.id
+      else if err == some .paused then setState s1 r.id .paused
       else if err == some .ctxCancel then terminate (emit s1 (.canc r.id)) r.id
-      else if err == some .network || r.aux.netErr then terminate s1 r.id
+      else if err == some .network then terminate s1 r.id
       else setState s1 r.id .completing
 
 def getUpdates (s : State) (w : Nat) : State :=
